@@ -365,6 +365,10 @@ class ApiCheck(object):
             st['sequential_runs'] += 1
         if 'heap' in spec:
             st['heap_runs'] += 1
+        st['clock_reads'] = st.get('clock_reads', 0) + res.get('clock_reads', 0)
+        st['clock_stalls'] = st.get('clock_stalls', 0) + res.get('clock_stalls', 0)
+        if (spec.get('clock') or {}).get('stall_p'):
+            st['clock_armed'] = st.get('clock_armed', 0) + 1
         self.digests[job['_index']] = res.get('digest')
         hd = seeds.digest({'calls': spec['calls'], 'src': spec.get('source_names'), 'pool': spec['pool']})
         self.histories.add(hd)
@@ -531,13 +535,15 @@ class ApiCheck(object):
             'seeds_per_hour': int(st['runs'] * 3600 / max(wall, 1e-6)),
             'seed_derivation': 'every run has its own PRNG value: sha256(VERIF_SEED, engine, run index, stream)',
             'explore_wall_s': round(wall, 1),
-            'simulated_time': 'not applicable: the system under test reads no clock; logical steps are reported instead',
+            'simulated_time': 'the package reads no clock (clock_reads_by_the_package below is measured, and 0 on the pinned tree), so no simulated time is covered; logical steps are reported instead',
             'scheduler_steps': st['steps'], 'context_switches': st['switches'],
             'calls_executed': st['calls'], 'reference_calls_executed': self.oracle.calls_executed,
             'threaded_runs': st['threaded_runs'], 'sequential_runs': st['sequential_runs'], 'opcode_granularity_runs': st['opcode_runs'],
             'heap_perturbed_runs': st['heap_runs'],
+            'clock_reads_by_the_package': st.get('clock_reads', 0), 'clock_stalls_injected': st.get('clock_stalls', 0),
+            'runs_with_stall_injection_armed': st.get('clock_armed', 0),
             'hash_seeds': self.hashseeds, 'runs_per_hash_seed': st['hashseed_runs'],
-            'fault_kinds_injected': {'thread_preemption': st['switches'], 'hash_seed_change': st['runs'], 'heap_perturbation': st['heap_runs'],
+            'fault_kinds_injected': {'thread_preemption': st['switches'], 'hash_seed_change': st['runs'], 'heap_perturbation': st['heap_runs'], 'clock_stalls_armed_runs': st.get('clock_armed', 0),
                                      'note': 'the API has no I/O; the injected adversities are pre-emption, hash seed and heap layout'},
             'policies': st['policy'],
             'distinct_histories': len(self.histories), 'distinct_schedule_signatures': len(self.sched_sigs),
